@@ -36,6 +36,7 @@ from dashlive.utils.list_of import ListOf
 from dashlive.utils.object_with_fields import ObjectWithFields
 
 from .segment import Segment
+from .reference import StreamTimingReference
 from .timing import DashTiming
 
 class SegmentNumberAndTime(NamedTuple):
@@ -595,6 +596,25 @@ class Representation(ObjectWithFields):
             timecode_to_timedelta(self.mediaDuration, self.timescale),
             mod_segment)
         return (mod_segment, origin_time, seg_start_tc)
+
+    def segment_index_containing(self, delta: datetime.timedelta,
+                                 stream_reference: StreamTimingReference) -> int:
+        """
+        The number (counted from zero, as calculate_segment_number_and_time()
+        numbers a live segment requested by time) of the segment that is
+        playing at :delta: after availabilityStartTime.
+        """
+        timecode: int = timedelta_to_timecode(delta, self.timescale)
+        ref_duration_tc: int = stream_reference.media_duration_using_timescale(
+            self.timescale)
+        num_loops: int = int(timecode // ref_duration_tc)
+        position: int = timecode - (num_loops * ref_duration_tc)
+        mod_segment: int = 1
+        end: int = self.segments[1].duration
+        while mod_segment < self.num_media_segments and end <= position:
+            mod_segment += 1
+            end += self.segments[mod_segment].duration
+        return (num_loops * self.num_media_segments) + mod_segment - 1
 
     def media_duration_timedelta(self) -> datetime.timedelta:
         """
